@@ -28,7 +28,7 @@ for log in logs:
         if m:
             observed.setdefault(m.group(1), {})[m.group(2)] = (m.group(3) or m.group(4))[:160]
 
-WAVE = {"m1": "1 (plain)", "m2": "1 (plain)", "m3": "2 (needs something specific)", "m4": "2 (needs something specific)", "m5": "3 (adversarial: told what kind of harness to evade)", "m6": "3 (adversarial: told what kind of harness to evade)", "m7": "4 (adversarial: told also what round 3 added, hash collisions and 4 GiB inputs excluded)", "m8": "4 (adversarial: told also what round 3 added, hash collisions and 4 GiB inputs excluded)", "m9": "5 (adversarial, 6 properties: told also what round 4 added)", "m10": "5 (adversarial, 6 properties: told also what round 4 added)"}
+WAVE = {"m1": "1 (plain)", "m2": "1 (plain)", "m3": "2 (needs something specific)", "m4": "2 (needs something specific)", "m5": "3 (adversarial: told what kind of harness to evade)", "m6": "3 (adversarial: told what kind of harness to evade)", "m7": "4 (adversarial: told also what round 3 added, hash collisions and 4 GiB inputs excluded)", "m8": "4 (adversarial: told also what round 3 added, hash collisions and 4 GiB inputs excluded)", "m9": "5 (adversarial, 6 properties: told also what round 4 added)", "m10": "5 (adversarial, 6 properties: told also what round 4 added)", "m11": "6a (plain: property text only, one change per property, 12 properties)", "m12": "6b (adversarial: told everything of DESIGN.md 10.2-10.4 in general terms, 12 properties)"}
 
 NOTES = {
     "C01-m5": "NOT CAUGHT, stated limit (DESIGN.md 6): wrong verdict only on a 32-bit fingerprint collision with the previously accepted input",
@@ -42,6 +42,11 @@ NOTES = {
 
 
 def confirmation(pid, m):
+    own = os.path.join(ROOT, "seeded", f"{pid}-{m}", "verify.txt")
+    if os.path.exists(own):
+        mm = re.search(r"DEMO_WITHOUT=\S+ SUITE_WITH=\S+ DEMO_WITH=\S+", open(own).read())
+        if mm:
+            return mm.group(0)
     for vf in sorted(glob.glob(os.path.join(OUT, pid, "verify*.txt"))):
         txt = open(vf).read()
         if os.path.basename(vf) == f"verify5_{m}.txt":
